@@ -392,8 +392,39 @@ func productionsOf(p *packages.Package) []production {
 			if !ok || fd.Body == nil {
 				continue
 			}
-			// definitions of local parser variables in this function
+			// definitions of local parser variables in this function (and, for the
+			// constructor functions that are inlined, in the other functions of the package:
+			// objects are unique, so one table serves)
 			defs := map[types.Object][]ast.Expr{}
+			for _, f2 := range p.Syntax {
+				for _, d2 := range f2.Decls {
+					fd2, ok := d2.(*ast.FuncDecl)
+					if !ok || fd2.Body == nil || fd2 == fd {
+						continue
+					}
+					ast.Inspect(fd2.Body, func(n ast.Node) bool {
+						if x, ok := n.(*ast.AssignStmt); ok && len(x.Lhs) == len(x.Rhs) {
+							for i, l := range x.Lhs {
+								if id, ok := l.(*ast.Ident); ok {
+									if o := info.ObjectOf(id); o != nil {
+										defs[o] = append(defs[o], x.Rhs[i])
+									}
+								}
+							}
+						}
+						if x, ok := n.(*ast.ValueSpec); ok {
+							for i, nm := range x.Names {
+								if i < len(x.Values) {
+									if o := info.ObjectOf(nm); o != nil {
+										defs[o] = append(defs[o], x.Values[i])
+									}
+								}
+							}
+						}
+						return true
+					})
+				}
+			}
 			ast.Inspect(fd.Body, func(n ast.Node) bool {
 				switch x := n.(type) {
 				case *ast.AssignStmt:
@@ -464,6 +495,23 @@ func productionsOf(p *packages.Package) []production {
 						case isParsecCall(info, x, "And") && depth > 0:
 							for _, a := range x.Args[1:] {
 								walk(a, opt, depth+1)
+							}
+						default:
+							// a constructor function of the package that returns the
+							// sub-production (newTypeDefinitionParser()): what it returns
+							var fid *ast.Ident
+							switch fx := x.Fun.(type) {
+							case *ast.Ident:
+								fid = fx
+							}
+							if fid != nil {
+								if fo, ok := info.Uses[fid].(*types.Func); ok && fo.Pkg() == p.Types {
+									if sub := funcDeclOf(p, fo); sub != nil && sub.Body != nil && len(sub.Body.List) > 0 {
+										if rs, ok := sub.Body.List[len(sub.Body.List)-1].(*ast.ReturnStmt); ok && len(rs.Results) == 1 {
+											walk(rs.Results[0], opt, depth+1)
+										}
+									}
+								}
 							}
 						}
 					case *ast.Ident:
